@@ -15,7 +15,11 @@ RULE = (
     "programs of the core fragment (qubit / int / bool / struct / nested struct / tuple variables; allocation, move, owned and "
     "borrowed calls, measure/discard/h/cx, tuple build/unpack, tuple element and field read, field assign, return; if / while / "
     "while True / break / continue, `measure(q)` as branch / loop condition, variables re-bound at a type of the other kind, "
-    "nested call expressions as arguments: idq(q), bq(q), cons(q, q), mk() lent to a borrowing callee). "
+    "nested call expressions as arguments: idq(q), bq(q), cons(q, q), mk() lent to a borrowing callee; generic helpers "
+    "(type variable without bounds / droppable-only / copyable, owned and borrowed parameters) called at several "
+    "instantiations within one function: int variable, qubit or struct place, fresh qubit or struct -- each call is judged at "
+    "its own instantiation by the oracle and, through the per-occurrence kinds of the extracted CFG, by the model; systematic "
+    "scope (1c): 432 programs with two generic calls at different instantiations, straight-line / across a branch / a loop). "
     "Streams: (1) the hand-written corpus (facts of DESIGN.md, gap and fix witnesses, near-miss shapes); (1b) a systematic "
     "scope of 192 programs that re-bind a variable qubit<->int in a block it flows into; (2) a small "
     "scope enumerated systematically: 5 control skeletons x {owned, borrowed, local} x 4 slots x 5 actions, on a qubit and on a "
@@ -50,7 +54,8 @@ ASSUMPTIONS = [
 ]
 UNMODELLED = [
     "comprehensions, subscripts/arrays, nested functions and captures, partial application, modifiers (`with control`), "
-    "affine types (non-copyable but droppable), generics, field access on unnamed values (`mkS().a`)",
+    "affine types (non-copyable but droppable; so generic helpers are instantiated at copyable and linear types only), "
+    "generic helpers returning their type parameter, field access on unnamed values (`mkS().a`)",
     "the surface->CFG builder and the type checker's block signatures (the model takes the checked CFG; C03/C08 cover them)",
     "diagnostic payload beyond the error class (spans, notes); when a place is both used later for real and implicitly returned "
     "the model allows AlreadyUsedError or BorrowSubPlaceUsedError (the real choice depends on dict order)",
@@ -99,7 +104,7 @@ STRUCTS = {"S": [("a", "Q"), ("b", "Q")], "T": [("q", "Q"), ("n", "I")], "U": [(
 TUPLES = {"P": ["Q", "Q"], "R": ["Q", "I"]}
 LEAFT = {"Q": True, "I": False, "B": False}  # type -> linear?
 VTYPE = {"q": "Q", "n": "I", "c": "B", "s": "S", "t": "T", "u": "U", "p": "P", "r": "R"}
-GUPPY_TY = {"Q": "qubit", "I": "int", "B": "bool", "S": "S", "T": "T", "U": "U",
+GUPPY_TY = {"*": "TL", "*d": "TD", "*c": "TC", "Q": "qubit", "I": "int", "B": "bool", "S": "S", "T": "T", "U": "U",
             "P": "tuple[qubit, qubit]", "R": "tuple[qubit, int]"}
 
 # name -> ([(mode, type)…], return type | None);  mode "o" owned, "b" borrowed, "c" copyable (no flag)
@@ -114,10 +119,20 @@ FUNS = {
     "cons": ([("o", "Q"), ("b", "Q")], "Q"), "pair": ([("o", "Q"), ("o", "Q")], "P"),
     "measure": ([("o", "Q")], "B"), "discard": ([("o", "Q")], None), "h": ([("b", "Q")], None), "cx": ([("b", "Q"), ("b", "Q")], None),
     "geti": ([("c", "I")], "I"),
+    # generic helpers: parameter type `*` = a type variable without bounds (any instantiation), `*d` droppable only,
+    # `*c` copyable and droppable; each call is judged at its own instantiation
+    "gpeek": ([("b", "*")], "I"), "gtake": ([("o", "*")], None), "gpeek2": ([("b", "*"), ("b", "*")], "I"),
+    "gpeekd": ([("b", "*d")], "I"), "gpeekc": ([("c", "*c")], "I"),
 }
+GENERIC = ("gpeek", "gtake", "gpeek2", "gpeekd", "gpeekc")
 
 DECLS = """
 from guppylang.std.quantum import qubit, measure, h, discard, cx
+
+TL = guppy.type_var("TL", copyable=False, droppable=False)
+TL2 = guppy.type_var("TL2", copyable=False, droppable=False)
+TD = guppy.type_var("TD", copyable=False, droppable=True)
+TC = guppy.type_var("TC", copyable=True, droppable=True)
 
 @guppy.struct
 class S:
@@ -142,7 +157,10 @@ def _decl_src():
     for name, (params, ret) in FUNS.items():
         if name in ("qubit", "measure", "discard", "h", "cx"):
             continue
-        ps = ", ".join(f"x{i}: {GUPPY_TY[t]}" + (" @owned" if m == "o" else "") for i, (m, t) in enumerate(params))
+        tys = [GUPPY_TY[t] for _m, t in params]
+        if name == "gpeek2":
+            tys = ["TL", "TL2"]
+        ps = ", ".join(f"x{i}: {ty}" + (" @owned" if m == "o" else "") for i, ((m, _t), ty) in enumerate(zip(params, tys)))
         out.append(f"@guppy.declare\ndef {name}({ps}) -> {GUPPY_TY[ret] if ret else 'None'}: ...\n")
     return "\n".join(out)
 
@@ -768,6 +786,10 @@ class Gen:
             st = self.rebind_step(owned, defd)
             if st is not None:
                 return st
+        if r.random() < 0.10:
+            st = self.generic_step(owned, defd)
+            if st is not None:
+                return st
         places = self.whole_places(owned, defd)
         if k < 0.22 or not places:
             ty = r.choice(["Q", "Q", "Q", "S", "T", "U", "P", "R"])
@@ -815,6 +837,40 @@ class Gen:
                 st = ("move", [tgt], [pl, o]) if r.random() < 0.6 else ("call", [tgt], "pair", [pl, o])
                 return st, (owned - set(lin_leaves(pl)) - set(lin_leaves(o))) | set(lin_leaves(tgt)), defd | {tgt[0]}
         return ("call", [], r.choice(BORROWERS[ty]), [pl]), owned, defd
+
+    def generic_step(self, owned, defd):
+        """a call of a generic helper at one of several instantiations: int variable, qubit / struct place,
+        fresh qubit / struct (a fresh linear value lent to a borrower is a DropAfterCall near-miss)"""
+        r = self.rng
+        ints = sorted(v for v in defd if v[0] == "n")
+        if not ints:
+            n = self.fresh("I")
+            return ("move", [(n, ())], []), owned, defd | {n}
+        f = r.choice(["gpeek", "gpeek", "gtake", "gpeek2", "gpeekd", "gpeekc"])
+
+        def pick(mode, only_int):
+            places = [] if only_int else [p for p in self.whole_places(owned, defd) if self.usable(p, mode)]
+            x = r.random()
+            if only_int or x < 0.35 or (not places and x < 0.8):
+                return (r.choice(ints), ()), set()
+            if places and x < 0.8:
+                p = r.choice(places)
+                return p, (set(lin_leaves(p)) if mode == "o" else set())
+            return ("c", r.choice(["mk", "mkS", "qubit"]), []), set()
+
+        args, gone = [], set()
+        for m, t in FUNS[f][0]:
+            a, g = pick(m, t in ("*d", "*c"))
+            if g & gone or (not is_call_arg(a) and any(set(lin_leaves(a)) & set(lin_leaves(b)) for b in args if not is_call_arg(b))):
+                a, g = (r.choice(ints), ()), set()
+            args.append(a)
+            gone |= g
+        tg = []
+        if FUNS[f][1] and r.random() < 0.7:
+            n = self.fresh("I")
+            tg = [(n, ())]
+            defd = defd | {n}
+        return ("call", tg, f, args), owned - gone, defd
 
     def rebind_step(self, owned, defd):
         """a variable `x<n>` that is re-bound at a type of the other kind (int <-> qubit)"""
@@ -1110,6 +1166,8 @@ def _tuplify(ss):
 
 
 def _t2(pl):
+    if pl[0] == "c" and len(pl) == 3 and isinstance(pl[2], list):
+        return ("c", pl[1], [_t2(a) for a in pl[2]])
     return (pl[0], tuple(pl[1]))
 
 
@@ -1173,6 +1231,8 @@ def mutate(prog, rng):
         if not srcs:
             return None
         k = rng.randrange(len(srcs))
+        if is_call_arg(srcs[k]):
+            return None
         ty = place_type(_t2(srcs[k]))
         pool = sorted({_t2(a) for a in _all_places(body) + [(v, ()) for v, _b in p["params"]] if place_type(_t2(a)) == ty} - {_t2(srcs[k])}, key=str)
         if not pool:
@@ -1219,7 +1279,7 @@ def _all_places(ss):
     out = []
     for s in ss:
         if s[0] == "call":
-            out += list(s[1]) + list(s[3])
+            out += list(s[1]) + [a for a in s[3] if not is_call_arg(a)]
         elif s[0] == "move":
             out += list(s[1]) + list(s[2])
         elif s[0] == "ret":
@@ -1513,6 +1573,34 @@ def rebind_scope():
     return out
 
 
+def generic_scope():
+    """two calls of generic helpers at different instantiations within one function, straight-line / across a
+    branch / across a loop, in both orders (a memoised or shared signature would judge one at the other's type)"""
+    q, s_, n = ("q0", ()), ("s0", ()), ("n0", ())
+    calls = [
+        ("call", [], "gpeek", [n]), ("call", [], "gpeek", [q]), ("call", [], "gpeek", [s_]),
+        ("call", [], "gpeek", [("c", "mk", [])]), ("call", [], "gpeek", [("c", "mkS", [])]),
+        ("call", [], "gtake", [n]), ("call", [], "gtake", [("c", "mk", [])]), ("call", [], "gtake", [q]),
+        ("call", [], "gpeek2", [n, ("c", "qubit", [])]), ("call", [], "gpeek2", [q, n]),
+        ("call", [], "gpeekd", [n]), ("call", [], "gpeekc", [n]),
+    ]
+    out = []
+    for a in calls:
+        for b in calls:
+            for k in range(3):
+                body = [("move", [n], [])]
+                if k == 0:
+                    body += [a, b]
+                elif k == 1:
+                    body += [a, ("if", "c0", [b], [])]
+                else:
+                    body += [a, ("while", "c0", [b])]
+                body += [("call", [], "useS", [s_])]
+                out.append(({"params": [("q0", True), ("s0", False), ("c0", False)], "ret": None, "body": body},
+                            ["generic:" + str(k)]))
+    return out
+
+
 def tie(ctx):
     cases = []
     for c in _corpus():
@@ -1533,6 +1621,8 @@ def tie(ctx):
         cases.append((prog, tags, "scope"))
     for prog, tags in rebind_scope():
         cases.append((prog, tags, "rebind-scope"))
+    for prog, tags in generic_scope():
+        cases.append((prog, tags, "generic-scope"))
     n = ctx.n(300, 50000)
     for i in range(n):
         size = ctx.rng.choice([2, 3, 4, 6, 8])
